@@ -480,6 +480,10 @@ def check(ctx):
     rule_split(ctx, F, "R1")
     rule_lookup(ctx, F, "R2", "R3")
     rule_search(ctx, F, "R4")
+    # R4 also needs the table that is searched to be parallel to the keyframes (and sorted): C11/R1
+    from rules import c11
+    for b in [b for b in c11.builders_of(F, c11.TBA) if F.body_unit[b["id"]][0] == "mina_core"]:
+        c11.check_builder(ctx, F, b, "R4")
     try:
         from rules import derive_rules
         derive_rules.rule_wiring(ctx, "R5")
